@@ -48,20 +48,24 @@ res["confirmed"] = confirmed
 print(json.dumps({k: v for k, v in res.items() if k != "demo_mutant_out"}))
 if not confirmed:
     print("NOT CONFIRMED"); sys.exit(3)
-# --- run the checks on /repo with the patch applied ---
-assert sh("git -C /repo status --porcelain").stdout.strip() == "", "repo dirty"
+# --- run the checks against a scratch worktree that carries the patch (never /repo itself) ---
 det = {}
+wt2 = tempfile.mkdtemp(prefix="confirm-run-")
+os.rmdir(wt2)
+assert sh(f"git -C /repo worktree add --detach {wt2} HEAD").returncode == 0
 try:
-    assert sh(f"git -C /repo apply {src}/patch.diff").returncode == 0
+    assert sh(f"git -C {wt2} apply {src}/patch.diff").returncode == 0
+    env2 = dict(os.environ, VERIF_REPO=wt2)
     for p in [pid] + extra_pids:
         t0 = time.time()
-        c = sh(f"cd /verif && ./check {p} --tier {tier}")
+        c = sh(f"cd /verif && ./check {p} --tier {tier}", env=env2)
         lines = [l for l in c.stdout.splitlines() if l.startswith("VIOLATION") or "failing-clause" in l][:6]
         det[p] = {"rc": c.returncode, "wall_s": round(time.time() - t0, 1), "first_lines": lines}
         if c.returncode not in (0, 1):
             det[p]["tail"] = c.stdout[-1500:]
 finally:
-    sh("git -C /repo checkout -- .")
+    sh(f"git -C /repo worktree remove --force {wt2}")
+    shutil.rmtree(wt2, ignore_errors=True)
     shutil.rmtree("/verif/replay", ignore_errors=True)
 print(json.dumps(det, indent=1))
 out = Path("/verif/seeded") / name
